@@ -147,27 +147,34 @@ def _analyze_node(node, config: Config, cwd: Path, *, remote: bool = False) -> D
     elif kind == "if":
         decisions = [_analyze_node(node.condition, config, cwd, remote=remote)]
         # the condition runs first: a cd in it moves the branches
+        body_cwd = cwd
         if not remote and _changes_directory(node.condition):
-            cwd = _UNKNOWN_CWD
-        decisions.append(_analyze_node(node.then_body, config, cwd, remote=remote))
+            body_cwd = _UNKNOWN_CWD
+        decisions.append(_analyze_node(node.then_body, config, body_cwd, remote=remote))
         if hasattr(node, "else_body") and node.else_body:
-            decisions.append(_analyze_node(node.else_body, config, cwd, remote=remote))
+            decisions.append(
+                _analyze_node(node.else_body, config, body_cwd, remote=remote)
+            )
         # Also check redirects on the if itself
         decisions.extend(_analyze_redirects(node, config, cwd, remote=remote))
         return _combine(decisions)
 
     elif kind in ("while", "until"):
-        decisions = [_analyze_node(node.condition, config, cwd, remote=remote)]
+        body_cwd = cwd
         if not remote and _changes_directory(node):
-            cwd = _UNKNOWN_CWD  # condition and body alternate
-        decisions.append(_analyze_node(node.body, config, cwd, remote=remote))
+            body_cwd = _UNKNOWN_CWD  # condition and body alternate
+        decisions = [
+            _analyze_node(node.condition, config, body_cwd, remote=remote),
+            _analyze_node(node.body, config, body_cwd, remote=remote),
+        ]
         decisions.extend(_analyze_redirects(node, config, cwd, remote=remote))
         return _combine(decisions)
 
     elif kind == "for":
+        body_cwd = cwd
         if not remote and _changes_directory(node.body):
-            cwd = _UNKNOWN_CWD  # a later iteration starts where the previous one ended
-        decisions = [_analyze_node(node.body, config, cwd, remote=remote)]
+            body_cwd = _UNKNOWN_CWD  # a later iteration starts where the previous ended
+        decisions = [_analyze_node(node.body, config, body_cwd, remote=remote)]
         # Check iteration words for cmdsubs
         for word in getattr(node, "words", None) or []:
             decisions.extend(_analyze_word_parts(word, config, cwd, remote=remote))
@@ -175,9 +182,10 @@ def _analyze_node(node, config: Config, cwd: Path, *, remote: bool = False) -> D
         return _combine(decisions)
 
     elif kind == "for-arith":
+        body_cwd = cwd
         if not remote and _changes_directory(node.body):
-            cwd = _UNKNOWN_CWD  # a later iteration starts where the previous one ended
-        decisions = [_analyze_node(node.body, config, cwd, remote=remote)]
+            body_cwd = _UNKNOWN_CWD  # a later iteration starts where the previous ended
+        decisions = [_analyze_node(node.body, config, body_cwd, remote=remote)]
         # Check init/cond/incr expressions for cmdsubs (stored as raw strings)
         for expr in (node.init, node.cond, node.incr):
             if expr:
@@ -188,9 +196,10 @@ def _analyze_node(node, config: Config, cwd: Path, *, remote: bool = False) -> D
         return _combine(decisions)
 
     elif kind == "select":
+        body_cwd = cwd
         if not remote and _changes_directory(node.body):
-            cwd = _UNKNOWN_CWD  # a later iteration starts where the previous one ended
-        decisions = [_analyze_node(node.body, config, cwd, remote=remote)]
+            body_cwd = _UNKNOWN_CWD  # a later iteration starts where the previous ended
+        decisions = [_analyze_node(node.body, config, body_cwd, remote=remote)]
         # Check selection words for cmdsubs
         for word in getattr(node, "words", None) or []:
             decisions.extend(_analyze_word_parts(word, config, cwd, remote=remote))
